@@ -101,13 +101,18 @@ func (pat idxPattern) matches(p pset, idxTree uint64, idxLeaf uint32) bool {
 	return okT && idxLeaf != max && idxLeaf>>(uint(p.r.HPrime)-1) == 1
 }
 
-// refIndices are the indices of the deterministic signature of (msg, ctx) under rsk (FIPS 205
-// Algorithm 22 line 8 and Algorithm 19 lines 3-10 with opt_rand = PK.seed), by the reference.
-func refIndices(p pset, rsk, msg, ctx []byte) (idxTree uint64, idxLeaf uint32) {
+// refIndices are the indices of the signature of (msg, ctx) under rsk with additional randomness
+// addrnd (nil: the deterministic variant, opt_rand = PK.seed) - FIPS 205 Algorithm 22 line 8 and
+// Algorithm 19 lines 3-10 - by the reference.
+func refIndices(p pset, rsk, msg, ctx, addrnd []byte) (idxTree uint64, idxLeaf uint32) {
 	n := p.n()
 	skPrf, pkSeed, pkRoot := rsk[n:2*n], rsk[2*n:3*n], rsk[3*n:]
 	mp := append(append([]byte{0, byte(len(ctx))}, ctx...), msg...)
-	r := p.r.PRFMsg(skPrf, pkSeed, mp)
+	optRand := pkSeed
+	if addrnd != nil {
+		optRand = addrnd
+	}
+	r := p.r.PRFMsg(skPrf, optRand, mp)
 	_, idxTree, idxLeaf = p.r.DigestIndices(p.r.HMsg(r, pkSeed, pkRoot, mp))
 	return idxTree, idxLeaf
 }
@@ -115,11 +120,16 @@ func refIndices(p pset, rsk, msg, ctx []byte) (idxTree uint64, idxLeaf uint32) {
 // searchIndexMessage returns base || 4-byte counter, the first one whose deterministic signature
 // under rsk with context ctx runs under indices of the pattern (expected <= 2^13 trials).
 func searchIndexMessage(p pset, rsk, base, ctx []byte, pat idxPattern) (msg []byte, idxTree uint64, idxLeaf uint32) {
+	return searchIndexMessageRand(p, rsk, base, ctx, nil, pat)
+}
+
+// searchIndexMessageRand is searchIndexMessage for the signature with additional randomness addrnd.
+func searchIndexMessageRand(p pset, rsk, base, ctx, addrnd []byte, pat idxPattern) (msg []byte, idxTree uint64, idxLeaf uint32) {
 	msg = append(append([]byte{}, base...), 0, 0, 0, 0)
 	c := msg[len(base):]
 	for i := uint32(0); i < 1<<22; i++ {
 		c[0], c[1], c[2], c[3] = byte(i>>24), byte(i>>16), byte(i>>8), byte(i)
-		if t, l := refIndices(p, rsk, msg, ctx); pat.matches(p, t, l) {
+		if t, l := refIndices(p, rsk, msg, ctx, addrnd); pat.matches(p, t, l) {
 			evid.Add("index_search_trials", int64(i)+1)
 			return msg, t, l
 		}
@@ -160,6 +170,191 @@ func (c *candBuf) views(sig, msg []byte) (s, m []byte) {
 		c.reused++
 	}
 	return bufView(&c.sig, sig), bufView(&c.msg, msg)
+}
+
+// ---------------------------------------------------------------------------------------------
+// the verify-candidate battery, shared by the generated unit TestScheme (rapid draws) and the
+// one-process-per-set unit TestTinkAPIAllSets (a counter-mode stream keyed by seed and set)
+
+// chooser supplies the battery's choices.
+type chooser interface {
+	pick(label string, n int) int
+	bytes(label string, n int) []byte
+	mutate(label string, b []byte) (kind string, out []byte) // out differs from b
+	Fatalf(format string, args ...any)
+}
+
+type rapidChooser struct{ rt *rapid.T }
+
+func (r rapidChooser) pick(label string, n int) int     { return pick(r.rt, label, n) }
+func (r rapidChooser) bytes(label string, n int) []byte { return rbytes(r.rt, label, n) }
+func (r rapidChooser) mutate(label string, b []byte) (string, []byte) {
+	m := gen.Mutate(r.rt, label, b)
+	return m.Kind, m.Out
+}
+func (r rapidChooser) Fatalf(format string, args ...any) { r.rt.Fatalf(format, args...) }
+
+// plainChooser is a deterministic stream: value i is splitmix64(seed + i*phi). The plain unit that
+// uses it is a function of (VERIF_SEED, parameter set) alone, so a failure replays by re-running it.
+type plainChooser struct {
+	t    *testing.T
+	seed uint64
+	ctr  *uint64
+}
+
+func (c plainChooser) next() uint64 {
+	*c.ctr++
+	return mix64(c.seed + *c.ctr*0x9e3779b97f4a7c15)
+}
+func (c plainChooser) pick(label string, n int) int { return int(c.next() % uint64(n)) }
+func (c plainChooser) bytes(label string, n int) []byte {
+	b := make([]byte, n)
+	switch c.pick(label, 16) {
+	case 0:
+	case 1:
+		for i := range b {
+			b[i] = 0xff
+		}
+	default:
+		copy(b, gen.Expand(c.next(), n))
+	}
+	return b
+}
+func (c plainChooser) mutate(label string, b []byte) (string, []byte) {
+	out := append([]byte{}, b...)
+	if len(b) == 0 {
+		return "append", append(out, byte(c.next()))
+	}
+	switch c.pick(label, 5) {
+	case 0:
+		return "truncate", out[:c.pick(label, len(b))]
+	case 1:
+		return "append", append(out, byte(c.next()))
+	case 2:
+		return "dropfirst", out[1:]
+	case 3:
+		at := c.pick(label, len(b)+1)
+		return "insert", append(out[:at], append([]byte{byte(c.next())}, b[at:]...)...)
+	}
+	return "flip", flipBit(b, c.pick(label, 8*len(b)))
+}
+func (c plainChooser) Fatalf(format string, args ...any) { c.t.Fatalf(format, args...) }
+
+// battery runs verify candidates around one genuine input (p, rpk, msg, ctx, one of genuine).
+type battery struct {
+	c              chooser
+	cs             string // the complete case, for messages
+	p              pset
+	rpk, msg, ctx  []byte
+	genuine        [][]byte // every signature made for (msg, ctx) under the key in this case
+	ncand, naccept int
+	buf            candBuf
+}
+
+// isGenuine: the candidate is, byte for byte, an input that was produced by signing. (The pair
+// (message, context) determines the message of the internal interface 0 || |ctx| || ctx || M and
+// the other way round, so comparing the pair compares what was signed.)
+func (b *battery) isGenuine(vp pset, pk, m, sig, c []byte) bool {
+	if vp.idx != b.p.idx || !bytes.Equal(pk, b.rpk) || !bytes.Equal(m, b.msg) || !bytes.Equal(c, b.ctx) {
+		return false
+	}
+	for _, g := range b.genuine {
+		if bytes.Equal(sig, g) {
+			return true
+		}
+	}
+	return false
+}
+
+func (b *battery) try(kind string, vp pset, pk, m, sig, c []byte, mustAccept bool) {
+	b.ncand++
+	vs, vm := b.buf.views(sig, m)
+	got, why := tinkVerify(vp, pk, vm, vs, c)
+	wantOK := vp.r.Verify(m, sig, c, pk)
+	if got != wantOK {
+		b.c.Fatalf("%s: candidate %q (verified under %s, pk=%x, M=%s, ctx=%s, %d-byte signature %s): library accepts=%v (%s), reference (FIPS 205 Algorithm 24) accepts=%v", b.cs, kind, vp.name, pk, hx(m), hx(c), len(sig), hx(sig), got, why, wantOK)
+	}
+	if mustAccept && !got {
+		b.c.Fatalf("%s: %s does not verify (library and reference both reject): %s", b.cs, kind, hx(sig))
+	}
+	if got && !b.isGenuine(vp, pk, m, sig, c) {
+		// C16: "any modification of a signature, message or key, or a signature of the wrong length,
+		// is rejected" - an accepted modified input is a forgery (probability <= 2^-128 per candidate),
+		// whatever the reference says about it
+		b.c.Fatalf("%s: candidate %q differs from every genuine input of the case and is ACCEPTED by the library and by the reference (verified under %s, pk=%x, M=%s, ctx=%s, %d-byte signature %s)", b.cs, kind, vp.name, pk, hx(m), hx(c), len(sig), hx(sig))
+	}
+	if got {
+		b.naccept++
+	}
+}
+
+// run tries the genuine signatures and the modifications of sigDet. sigRnd is a second valid
+// signature of the same (msg, ctx), long a context of more than 255 bytes.
+func (b *battery) run(sigDet, sigRnd, long []byte) {
+	p, n, rpk, msg, ctx := b.p, b.p.n(), b.rpk, b.msg, b.ctx
+	try := b.try
+	pick := b.c.pick
+	try("fresh deterministic signature", p, rpk, msg, sigDet, ctx, true)
+	try("fresh hedged signature", p, rpk, msg, sigRnd, ctx, true)
+
+	bit := func(label string) int { return pick(label, 8*n) }
+	flipAt := func(kind string, off int, bt int) {
+		try(fmt.Sprintf("%s: bit %d of the n-byte block at offset %d flipped", kind, bt, off), p, rpk, msg, flipBit(sigDet, 8*off+bt), ctx, false)
+	}
+	// R
+	flipAt("R", 0, bit("rbit1"))
+	flipAt("R", 0, bit("rbit2"))
+	// FORS: three drawn trees, secret value and one authentication path node each
+	for i := 0; i < 3; i++ {
+		tree := pick("forstree", p.r.K)
+		base := n + tree*(1+p.r.A)*n
+		flipAt(fmt.Sprintf("FORS tree %d secret value", tree), base, bit("forsskbit"))
+		lvl := pick("forslevel", p.r.A)
+		flipAt(fmt.Sprintf("FORS tree %d auth node %d", tree, lvl), base+(1+lvl)*n, bit("forsauthbit"))
+	}
+	// hypertree: every layer, one WOTS+ chain value and one authentication path node
+	htBase := n + p.forsLen()
+	for layer := 0; layer < p.r.D; layer++ {
+		base := htBase + layer*p.xmssLen()
+		chain := pick("wotschain", p.len())
+		flipAt(fmt.Sprintf("HT layer %d WOTS+ chain %d", layer, chain), base+chain*n, bit("wotsbit"))
+		lvl := pick("authlevel", p.r.HPrime)
+		flipAt(fmt.Sprintf("HT layer %d auth node %d", layer, lvl), base+(p.len()+lvl)*n, bit("authbit"))
+	}
+	try("first byte changed", p, rpk, msg, flipBit(sigDet, pick("firstbit", 8)), ctx, false)
+	try("last byte changed", p, rpk, msg, flipBit(sigDet, 8*(len(sigDet)-1)+pick("lastbit", 8)), ctx, false)
+	// lengths
+	try("signature minus last byte", p, rpk, msg, sigDet[:len(sigDet)-1], ctx, false)
+	try("signature minus first byte", p, rpk, msg, sigDet[1:], ctx, false)
+	try("signature plus one byte", p, rpk, msg, append(append([]byte{}, sigDet...), byte(pick("extra", 256))), ctx, false)
+	try("signature minus last n bytes", p, rpk, msg, sigDet[:len(sigDet)-n], ctx, false)
+	try("signature plus n bytes", p, rpk, msg, append(append([]byte{}, sigDet...), b.c.bytes("extran", n)...), ctx, false)
+	try("empty signature", p, rpk, msg, []byte{}, ctx, false)
+	// message
+	mk, mo := b.c.mutate("msgmut", msg)
+	try("message "+mk, p, rpk, mo, sigDet, ctx, false)
+	if len(ctx) > 0 { // with the empty context this is the genuine input again
+		try("message with context prepended", p, rpk, append(append([]byte{}, ctx...), msg...), sigDet, []byte{}, false)
+	}
+	// context
+	ck, co := b.c.mutate("ctxmut", ctx)
+	try("context "+ck, p, rpk, msg, sigDet, co, false)
+	try("256+ byte context", p, rpk, msg, sigDet, long, false)
+	if len(ctx) > 0 {
+		try("empty context", p, rpk, msg, sigDet, []byte{}, false)
+		try("context byte moved into the message", p, rpk, append(append([]byte{}, ctx[len(ctx)-1:]...), msg...), sigDet, ctx[:len(ctx)-1], false)
+	}
+	// public key
+	try("PK.seed bit flipped", p, flipBit(rpk, bit("pkseedbit")), msg, sigDet, ctx, false)
+	try("PK.root bit flipped", p, flipBit(rpk, 8*n+bit("pkrootbit")), msg, sigDet, ctx, false)
+	try("public key minus last byte", p, rpk[:len(rpk)-1], msg, sigDet, ctx, false)
+	try("public key plus one byte", p, append(append([]byte{}, rpk...), 0), msg, sigDet, ctx, false)
+	// other byte strings of signature length
+	try("drawn bytes of signature length", p, rpk, msg, b.c.bytes("rndsig", len(sigDet)), ctx, false)
+	try("R || drawn bytes", p, rpk, msg, append(append([]byte{}, sigDet[:n]...), b.c.bytes("rndtail", len(sigDet)-n)...), ctx, false)
+	try("hedged R with deterministic body", p, rpk, msg, append(append([]byte{}, sigRnd[:n]...), sigDet[n:]...), ctx, false)
+	// same key bytes and signature under the other hash family (equal sizes)
+	try("verified under the sibling parameter set", p.sibling(), rpk, msg, sigDet, ctx, false)
 }
 
 func TestScheme(t *testing.T) {
@@ -223,82 +418,9 @@ func TestScheme(t *testing.T) {
 			rt.Fatalf("%s: signing with a %d-byte context: SignDeterministic err=%v Sign err=%v, reference err=%v", cs, len(long), e1, e2, e3)
 		}
 
-		ncand, naccept := 0, 0
-		var buf candBuf
-		try := func(kind string, vp pset, pk, m, sig, c []byte, mustAccept bool) {
-			ncand++
-			vs, vm := buf.views(sig, m)
-			got, why := tinkVerify(vp, pk, vm, vs, c)
-			wantOK := vp.r.Verify(m, sig, c, pk)
-			if got != wantOK {
-				rt.Fatalf("%s: candidate %q (verified under %s, pk=%x, M=%s, ctx=%s, %d-byte signature %s): library accepts=%v (%s), reference (FIPS 205 Algorithm 24) accepts=%v", cs, kind, vp.name, pk, hx(m), hx(c), len(sig), hx(sig), got, why, wantOK)
-			}
-			if mustAccept && !got {
-				rt.Fatalf("%s: %s does not verify (library and reference both reject): %s", cs, kind, hx(sig))
-			}
-			if got {
-				naccept++
-			}
-		}
-		try("fresh deterministic signature", p, rpk, msg, sigDet, ctx, true)
-		try("fresh hedged signature", p, rpk, msg, sigRnd, ctx, true)
-
-		bit := func(label string) int { return pick(rt, label, 8*n) }
-		flipAt := func(kind string, off int, b int) {
-			try(fmt.Sprintf("%s: bit %d of the n-byte block at offset %d flipped", kind, b, off), p, rpk, msg, flipBit(sigDet, 8*off+b), ctx, false)
-		}
-		// R
-		flipAt("R", 0, bit("rbit1"))
-		flipAt("R", 0, bit("rbit2"))
-		// FORS: three drawn trees, secret value and one authentication path node each
-		for i := 0; i < 3; i++ {
-			tree := pick(rt, "forstree", p.r.K)
-			base := n + tree*(1+p.r.A)*n
-			flipAt(fmt.Sprintf("FORS tree %d secret value", tree), base, bit("forsskbit"))
-			lvl := pick(rt, "forslevel", p.r.A)
-			flipAt(fmt.Sprintf("FORS tree %d auth node %d", tree, lvl), base+(1+lvl)*n, bit("forsauthbit"))
-		}
-		// hypertree: every layer, one WOTS+ chain value and one authentication path node
-		htBase := n + p.forsLen()
-		for layer := 0; layer < p.r.D; layer++ {
-			base := htBase + layer*p.xmssLen()
-			chain := pick(rt, "wotschain", p.len())
-			flipAt(fmt.Sprintf("HT layer %d WOTS+ chain %d", layer, chain), base+chain*n, bit("wotsbit"))
-			lvl := pick(rt, "authlevel", p.r.HPrime)
-			flipAt(fmt.Sprintf("HT layer %d auth node %d", layer, lvl), base+(p.len()+lvl)*n, bit("authbit"))
-		}
-		try("first byte changed", p, rpk, msg, flipBit(sigDet, pick(rt, "firstbit", 8)), ctx, false)
-		try("last byte changed", p, rpk, msg, flipBit(sigDet, 8*(len(sigDet)-1)+pick(rt, "lastbit", 8)), ctx, false)
-		// lengths
-		try("signature minus last byte", p, rpk, msg, sigDet[:len(sigDet)-1], ctx, false)
-		try("signature minus first byte", p, rpk, msg, sigDet[1:], ctx, false)
-		try("signature plus one byte", p, rpk, msg, append(append([]byte{}, sigDet...), byte(pick(rt, "extra", 256))), ctx, false)
-		try("signature minus last n bytes", p, rpk, msg, sigDet[:len(sigDet)-n], ctx, false)
-		try("signature plus n bytes", p, rpk, msg, append(append([]byte{}, sigDet...), rbytes(rt, "extran", n)...), ctx, false)
-		try("empty signature", p, rpk, msg, []byte{}, ctx, false)
-		// message
-		mm := gen.Mutate(rt, "msgmut", msg)
-		try("message "+mm.Kind, p, rpk, mm.Out, sigDet, ctx, false)
-		try("message with context prepended", p, rpk, append(append([]byte{}, ctx...), msg...), sigDet, []byte{}, false)
-		// context
-		cm := gen.Mutate(rt, "ctxmut", ctx)
-		try("context "+cm.Kind, p, rpk, msg, sigDet, cm.Out, false)
-		try("256+ byte context", p, rpk, msg, sigDet, long, false)
-		if len(ctx) > 0 {
-			try("empty context", p, rpk, msg, sigDet, []byte{}, false)
-			try("context byte moved into the message", p, rpk, append(append([]byte{}, ctx[len(ctx)-1:]...), msg...), sigDet, ctx[:len(ctx)-1], false)
-		}
-		// public key
-		try("PK.seed bit flipped", p, flipBit(rpk, bit("pkseedbit")), msg, sigDet, ctx, false)
-		try("PK.root bit flipped", p, flipBit(rpk, 8*n+bit("pkrootbit")), msg, sigDet, ctx, false)
-		try("public key minus last byte", p, rpk[:len(rpk)-1], msg, sigDet, ctx, false)
-		try("public key plus one byte", p, append(append([]byte{}, rpk...), 0), msg, sigDet, ctx, false)
-		// other byte strings of signature length
-		try("drawn bytes of signature length", p, rpk, msg, rbytes(rt, "rndsig", len(sigDet)), ctx, false)
-		try("R || drawn bytes", p, rpk, msg, append(append([]byte{}, sigDet[:n]...), rbytes(rt, "rndtail", len(sigDet)-n)...), ctx, false)
-		try("hedged R with deterministic body", p, rpk, msg, append(append([]byte{}, sigRnd[:n]...), sigDet[n:]...), ctx, false)
-		// same key bytes and signature under the other hash family (equal sizes)
-		try("verified under the sibling parameter set", p.sibling(), rpk, msg, sigDet, ctx, false)
+		bt := &battery{c: rapidChooser{rt}, cs: cs, p: p, rpk: rpk, msg: msg, ctx: ctx, genuine: [][]byte{sigDet, sigRnd}}
+		bt.run(sigDet, sigRnd, long)
+		ncand, naccept, buf := bt.ncand, bt.naccept, &bt.buf
 
 		evid.Add("verify_candidates", int64(ncand))
 		evid.Add("accepted_candidates", int64(naccept))
@@ -368,67 +490,167 @@ func cached(rt *rapid.T, p pset) *cachedSig {
 	return c
 }
 
+// pureMsg is the message of the internal interface for (M, ctx): 0 || |ctx| || ctx || M (FIPS 205
+// Algorithm 22 line 8 / Algorithm 24 line 4); ok is false for a context of more than 255 bytes.
+func pureMsg(m, ctx []byte) (mp []byte, ok bool) {
+	if len(ctx) > 255 {
+		return nil, false
+	}
+	return append(append([]byte{0, byte(len(ctx))}, ctx...), m...), true
+}
+
+// TestVerifyRandomDigests runs the verify path under many message digests, i.e. many (md,
+// idx_tree, idx_leaf). Reject side: one cached reference signature per set against drawn /
+// modified messages, contexts and R. Accept side: besides replaying the cached signature, a
+// REFERENCE-made signature of a drawn message under a drawn key, so that an accepting
+// verification runs under fresh indices and FORS digits in every such case ('f' sets: 30-160 ms per
+// reference signature; 's' sets: 0.7-1.8 s, a small share).
 func TestVerifyRandomDigests(t *testing.T) {
 	rapid.Check(t, func(rt *rapid.T) {
 		begin(rt)
-		p := drawSet(rt, 30)
+		kind := weighted(rt, "kind", "genuine-internal", 5, "genuine-external", 5, "fresh-genuine-f", 16, "fresh-genuine-s", 1,
+			"internal-drawn-message", 68, "internal-mutated-message", 30, "external-drawn", 30, "external-context-shift", 10, "R-replaced", 20, "R-bit-flipped", 15)
+		var p pset
+		switch kind {
+		case "fresh-genuine-f":
+			p = drawSet(rt, 0)
+		case "fresh-genuine-s":
+			p = drawSet(rt, 100)
+		default:
+			p = drawSet(rt, 30)
+		}
 		n := p.n()
-		c := cached(rt, p)
-		kind := weighted(rt, "kind", "genuine-internal", 1, "genuine-external", 1, "internal-drawn-message", 6, "internal-mutated-message", 3,
-			"external-drawn", 3, "external-context-shift", 1, "R-replaced", 3, "R-bit-flipped", 2)
 		h := evid.NewH().S(p.name).S(kind)
+		// the key of the case and the genuine input (message of the internal interface, signature)
+		var tpk *islhdsa.PublicKey
+		var rpk, genM, genSig []byte
+		var origin string
 		var got, want bool
 		var why, desc string
-		internal := func(m, sig []byte) {
-			err := islhdsa.VerifVerifyInternal(c.tpk, m, sig)
-			got, want = err == nil, p.r.VerifyInternal(m, sig, c.rpk)
+		ncand, naccept := 0, 0
+		check := func(sig []byte, sigDesc string, mp []byte, mustAccept bool) {
+			ncand++
+			if got != want {
+				rt.Fatalf("%s pk=%x, %s (%s): %s: library accepts=%v (%s), reference accepts=%v", p.name, rpk, origin, sigDesc, desc, got, why, want)
+			}
+			if mustAccept && !got {
+				rt.Fatalf("%s pk=%x, %s (%s): %s: the reference's own signature is rejected by the library and by the reference", p.name, rpk, origin, sigDesc, desc)
+			}
+			if got && !(bytes.Equal(mp, genM) && bytes.Equal(sig, genSig)) {
+				// C16: any modification of a signature or message is rejected (forgery bound 2^-128)
+				rt.Fatalf("%s pk=%x, %s (%s): %s: a modified input is ACCEPTED by the library and by the reference; SIG=%s", p.name, rpk, origin, sigDesc, desc, hx(sig))
+			}
+			if got {
+				naccept++
+			}
+		}
+		internal := func(m, sig []byte, sigDesc string, mustAccept bool) {
+			err := islhdsa.VerifVerifyInternal(tpk, m, sig)
+			got, want, why = err == nil, p.r.VerifyInternal(m, sig, rpk), ""
 			if err != nil {
 				why = err.Error()
 			}
 			desc = fmt.Sprintf("slh_verify_internal(M=%s, SIG)", hx(m))
 			h = h.B(m)
+			check(sig, sigDesc, m, mustAccept)
 		}
-		external := func(m, sig, ctx []byte) {
-			err := c.tpk.Verify(m, sig, ctx)
-			got, want = err == nil, p.r.Verify(m, sig, ctx, c.rpk)
+		external := func(m, sig, ctx []byte, sigDesc string, mustAccept bool) {
+			err := tpk.Verify(m, sig, ctx)
+			got, want, why = err == nil, p.r.Verify(m, sig, ctx, rpk), ""
 			if err != nil {
 				why = err.Error()
 			}
 			desc = fmt.Sprintf("slh_verify(M=%s, SIG, ctx=%s)", hx(m), hx(ctx))
 			h = h.B(m).B(ctx)
+			mp, _ := pureMsg(m, ctx) // nil for an over-long context: never the genuine input
+			check(sig, sigDesc, mp, mustAccept)
 		}
-		sigDesc := "SIG = the reference's deterministic signature"
-		switch kind {
-		case "genuine-internal":
-			internal(c.m0int, c.sig)
-		case "genuine-external":
-			external(c.m0, c.sig, c.ctx0)
-		case "internal-drawn-message":
-			internal(gen.Bytes(rt, "m", 300), c.sig)
-		case "internal-mutated-message":
-			internal(gen.Mutate(rt, "mmut", c.m0int).Out, c.sig)
-		case "external-drawn":
-			external(gen.Bytes(rt, "m", 300), c.sig, drawCtx(rt))
-		case "external-context-shift":
-			k := pick(rt, "k", len(c.ctx0))
-			external(append(append([]byte{}, c.ctx0[k:]...), c.m0...), c.sig, c.ctx0[:k])
-		case "R-replaced", "R-bit-flipped":
-			r := rbytes(rt, "r", n)
-			if kind == "R-bit-flipped" {
-				r = flipBit(c.sig[:n], pick(rt, "rbit", 8*n))
+		class := ""
+		if kind == "fresh-genuine-f" || kind == "fresh-genuine-s" {
+			skSeed, skPrf, pkSeed := rbytes(rt, "skseed", n), rbytes(rt, "skprf", n), rbytes(rt, "pkseed", n)
+			m := gen.Bytes(rt, "m", 300)
+			ctx := drawCtx(rt)
+			var addrnd []byte // nil: the deterministic variant (opt_rand = PK.seed)
+			variant := sample(rt, "variant", []string{"deterministic", "hedged"})
+			if variant == "hedged" {
+				addrnd = rbytes(rt, "addrnd", n)
 			}
-			sigDesc = fmt.Sprintf("SIG = that signature with R replaced by %x", r)
-			h = h.B(r)
-			internal(c.m0int, append(append([]byte{}, r...), c.sig[n:]...))
+			route := sample(rt, "route", []string{"internal", "external"})
+			var rsk []byte
+			rsk, rpk = p.r.KeyGenInternal(skSeed, skPrf, pkSeed)
+			// one case in three signs the drawn message extended by a searched 4-byte suffix, so that the
+			// signature runs under extreme indices (leaf 0 / last leaf, top tree bits all clear / all set)
+			idxPat := "idx=any"
+			if k := pick(rt, "idxpattern", 3*len(idxPatterns)); k < len(idxPatterns) {
+				m, _, _ = searchIndexMessageRand(p, rsk, m, ctx, addrnd, idxPatterns[k])
+				idxPat = idxPatterns[k].String()
+			}
+			evid.Add("fresh_signature_indices/"+idxPat, 1)
+			var err error
+			if tpk, err = p.t.Params().DecodePublicKey(append([]byte{}, rpk...)); err != nil {
+				rt.Fatalf("%s: DecodePublicKey(%x): %v", p.name, rpk, err)
+			}
+			genSig, err = p.r.Sign(m, ctx, rsk, addrnd)
+			if err != nil {
+				rt.Fatalf("harness: reference Sign: %v", err)
+			}
+			genM, _ = pureMsg(m, ctx)
+			_, idxTree, idxLeaf := p.r.DigestIndices(p.r.HMsg(genSig[:n], rpk[:n], rpk[n:], genM))
+			origin = fmt.Sprintf("key from SK.seed=%s SK.prf=%s PK.seed=%s; SIG = reference slh_sign(M=%s, ctx=%s, addrnd=%s) [idx_tree=%#x idx_leaf=%d]",
+				hx(skSeed), hx(skPrf), hx(pkSeed), hx(m), hx(ctx), hx(addrnd), idxTree, idxLeaf)
+			h = h.B(skSeed).B(skPrf).B(pkSeed).B(addrnd)
+			verify := func(mm, sig []byte, sigDesc string, mustAccept bool) {
+				if route == "internal" {
+					mp, _ := pureMsg(mm, ctx)
+					internal(mp, sig, sigDesc, mustAccept)
+				} else {
+					external(mm, sig, ctx, sigDesc, mustAccept)
+				}
+			}
+			verify(m, genSig, "SIG as signed", true)
+			// the same digest (R, key and message unchanged), hence the same md / idx_tree / idx_leaf, with
+			// one bit of the FORS or hypertree part flipped: the reject side under these indices
+			bit := 8*n + pick(rt, "bodybit", 8*(len(genSig)-n))
+			verify(m, flipBit(genSig, bit), fmt.Sprintf("SIG with bit %d (%s) flipped", bit, region(p, bit/8)), false)
+			// and a message differing in one bit under the genuine signature (another digest)
+			if len(m) > 0 {
+				mbit := pick(rt, "mbit", 8*len(m))
+				verify(flipBit(m, mbit), genSig, fmt.Sprintf("SIG as signed, bit %d of M flipped", mbit), false)
+			}
+			evid.Add("fresh_reference_signatures", 1)
+			class = fmt.Sprintf("verify-digests/%s/%s/%s/%s/%s/%s", kind, p.name, variant, route, treeClass(idxTree, p), idxClass(idxLeaf, p.leaves()))
+		} else {
+			c := cached(rt, p)
+			tpk, rpk, genM, genSig = c.tpk, c.rpk, c.m0int, c.sig
+			origin = fmt.Sprintf("key and signature from the reference for M'=%x", c.m0int)
+			sigDesc := "SIG = the reference's deterministic signature"
+			switch kind {
+			case "genuine-internal":
+				internal(c.m0int, c.sig, sigDesc, true)
+			case "genuine-external":
+				external(c.m0, c.sig, c.ctx0, sigDesc, true)
+			case "internal-drawn-message":
+				internal(gen.Bytes(rt, "m", 300), c.sig, sigDesc, false)
+			case "internal-mutated-message":
+				internal(gen.Mutate(rt, "mmut", c.m0int).Out, c.sig, sigDesc, false)
+			case "external-drawn":
+				external(gen.Bytes(rt, "m", 300), c.sig, drawCtx(rt), sigDesc, false)
+			case "external-context-shift":
+				k := pick(rt, "k", len(c.ctx0))
+				external(append(append([]byte{}, c.ctx0[k:]...), c.m0...), c.sig, c.ctx0[:k], sigDesc, false)
+			case "R-replaced", "R-bit-flipped":
+				r := rbytes(rt, "r", n)
+				if kind == "R-bit-flipped" {
+					r = flipBit(c.sig[:n], pick(rt, "rbit", 8*n))
+				}
+				h = h.B(r)
+				internal(c.m0int, append(append([]byte{}, r...), c.sig[n:]...), fmt.Sprintf("SIG = that signature with R replaced by %x", r), false)
+			}
+			class = fmt.Sprintf("verify-digests/%s/%s/accepted=%v", kind, p.name, got)
 		}
-		if got != want {
-			rt.Fatalf("%s pk=%x, key and signature from the reference for M'=%x (%s): %s: library accepts=%v (%s), reference accepts=%v", p.name, c.rpk, c.m0int, sigDesc, desc, got, why, want)
-		}
-		evid.Add("verify_candidates", 1)
-		if got {
-			evid.Add("accepted_candidates", 1)
-		}
-		evid.Case(fmt.Sprintf("verify-digests/%s/%s/accepted=%v", kind, p.name, got), true, h.Sum(), func() any { return p.name + " " + desc + " " + sigDesc })
+		evid.Add("verify_candidates", int64(ncand))
+		evid.Add("accepted_candidates", int64(naccept))
+		evid.Case(class, true, h.Sum(), func() any { return p.name + " " + origin + ": " + desc })
 	})
 }
 
@@ -542,6 +764,8 @@ func TestTinkAPI(t *testing.T) {
 		}
 		ncand, naccept := 0, 0
 		var buf candBuf
+		refRaw := tk.Must(p.r.Sign(msg, empty, rsk, nil))
+		genuine := [][]byte{sig, append(append([]byte{}, prefix...), refRaw...)} // the signatures made for msg in this case
 		try := func(kind string, cand, m []byte) {
 			ncand++
 			should := bytes.HasPrefix(cand, prefix) && p.r.Verify(m, cand[len(prefix):], empty, rpk)
@@ -550,12 +774,15 @@ func TestTinkAPI(t *testing.T) {
 			if (err == nil) != should {
 				rt.Fatalf("%s: candidate %q (M=%s, %d bytes %s): verifier err=%v, but prefix-match && reference-verify = %v", cs, kind, hx(m), len(cand), hx(cand), err, should)
 			}
+			if should && !(bytes.Equal(m, msg) && (bytes.Equal(cand, genuine[0]) || bytes.Equal(cand, genuine[1]))) {
+				// C16: any modification of a signature or message is rejected (forgery bound 2^-128)
+				rt.Fatalf("%s: candidate %q (M=%s, %d bytes %s) differs from every genuine input of the case and is ACCEPTED by the verifier and by the reference", cs, kind, hx(m), len(cand), hx(cand))
+			}
 			if should {
 				naccept++
 			}
 		}
 		try("own signature", sig, msg)
-		refRaw := tk.Must(p.r.Sign(msg, empty, rsk, nil))
 		try("reference-made signature with the key's prefix", append(append([]byte{}, prefix...), refRaw...), msg)
 		if !p.small {
 			try("reference-made signature for context 'x'", append(append([]byte{}, prefix...), tk.Must(p.r.Sign(msg, []byte("x"), rsk, nil))...), msg)
@@ -609,7 +836,7 @@ func TestTinkAPIAllSets(t *testing.T) {
 		// extreme tree / leaf indices; the pattern rotates with the run's seed
 		pat := idxPatterns[(int(seed%uint64(len(idxPatterns)))+i)%len(idxPatterns)]
 		msg, idxTree, idxLeaf := searchIndexMessage(p, rsk, mat[3*n:], []byte{}, pat)
-		if t2, l2 := refIndices(p, rsk, msg, []byte{}); t2 != idxTree || l2 != idxLeaf || !pat.matches(p, t2, l2) {
+		if t2, l2 := refIndices(p, rsk, msg, []byte{}, nil); t2 != idxTree || l2 != idxLeaf || !pat.matches(p, t2, l2) {
 			t.Fatalf("harness: index search not reproducible")
 		}
 		// deterministic signing through the internal package's exported API, byte for byte against the
@@ -668,6 +895,7 @@ func TestTinkAPIAllSets(t *testing.T) {
 			})
 		}
 		as := apiSetOf(p)
+		var hedged [][]byte // the Tink signers' outputs for msg without their prefix
 		for _, variant := range []string{tk.Tink, tk.NoPrefix} {
 			tv := map[string]slhdsa.Variant{tk.Tink: slhdsa.VariantTink, tk.NoPrefix: slhdsa.VariantNoPrefix}[variant]
 			params, err := slhdsa.NewParameters(as.hash, as.keySize, as.sigType, tv)
@@ -742,6 +970,7 @@ func TestTinkAPIAllSets(t *testing.T) {
 			if err := verifier.Verify(sig, msg); err != nil {
 				t.Fatalf("%s: Tink verifier rejects the Tink signer's output: %v", cs, err)
 			}
+			hedged = append(hedged, append([]byte{}, sig[len(prefix):]...))
 			{
 				ref := append(append([]byte{}, prefix...), refRaw...)
 				if err := verifier.Verify(ref, msg); err != nil {
@@ -766,6 +995,25 @@ func TestTinkAPIAllSets(t *testing.T) {
 				}
 			}
 			evid.Case("api-all-sets/"+p.name+"/"+variant, true, evid.NewH().S(p.name).S(variant).B(rsk).Sum(), func() any { return cs[:min(len(cs), 200)] })
+		}
+		// TestScheme's verify-candidate battery around this set's deterministic signature (the generated
+		// unit draws the set per case and reaches some of the 's' sets not at all in a quick run; here
+		// every set gets the battery in every run, at the cost of verifications only - the signatures
+		// exist already). Choices come from a stream keyed by (VERIF_SEED, set).
+		{
+			var ctr uint64
+			bt := &battery{c: plainChooser{t: t, seed: mix64(seed) + uint64(i), ctr: &ctr}, p: p, rpk: rpk, msg: msg, ctx: []byte{},
+				cs:      fmt.Sprintf("%s sk=%x M=%x ctx=empty (idx_tree=%#x idx_leaf=%d; candidate choices from VERIF_SEED=%d)", p.name, rsk, msg, idxTree, idxLeaf, seed),
+				genuine: append([][]byte{refRaw}, hedged...)}
+			long := bt.c.bytes("longctx", 256+bt.c.pick("longctx_extra", 4))
+			bt.run(refRaw, hedged[len(hedged)-1], long)
+			evid.Add("verify_candidates", int64(bt.ncand))
+			evid.Add("accepted_candidates", int64(bt.naccept))
+			evid.Add("all_sets_battery_candidates", int64(bt.ncand))
+			evid.Add("candidates_in_reused_buffers", int64(bt.buf.reused))
+			evid.Case("api-all-sets-battery/"+p.name, true, evid.NewH().S("battery").S(p.name).B(rsk).B(msg).I(int64(seed)).Sum(), func() any {
+				return map[string]any{"case": bt.cs[:min(len(bt.cs), 300)], "candidates": bt.ncand, "accepted": bt.naccept}
+			})
 		}
 	}
 }
